@@ -19,6 +19,8 @@ from pdfminer.pdftypes import (
     LITERALS_FLATE_DECODE,
     LITERALS_JBIG2_DECODE,
     LITERALS_JPX_DECODE,
+    dict_value,
+    stream_value,
 )
 
 PIL_ERROR_MESSAGE = (
@@ -195,7 +197,10 @@ class ImageWriter:
             filters = image.stream.get_filters()
             for filter_name, params in filters:
                 if filter_name in LITERALS_JBIG2_DECODE:
-                    global_streams.append(params["JBIG2Globals"].resolve())
+                    # the global segments are optional
+                    jbig2_globals = dict_value(params).get("JBIG2Globals")
+                    if jbig2_globals is not None:
+                        global_streams.append(stream_value(jbig2_globals))
 
             if len(global_streams) > 1:
                 msg = (
